@@ -218,13 +218,16 @@ class Check(object):
         return '%s:%s:%s' % (f.read.split('[')[0] + ':' + (f.op[0] if f.op else '?'), cls, multi)
 
 
-def churn_history(r):
-    """Re-add / remove heavy: many tombstones pile up in front of and between the live entries."""
+def churn_history(r, heavy=False):
+    """Re-add / remove heavy: many tombstones pile up in front of and between the live entries (heavy: thousands of
+    them, hardly any pops to clear them away - re-prioritising schedulers)."""
     ntasks = r.choice([5, 12, 40, 60])
     ops = []
-    for _ in range(r.randint(400, 2500)):
+    for _ in range(r.randint(400, 2500) if not heavy else r.randint(5000, 12000)):
         x = r.random()
         t = r.randrange(ntasks)
+        if heavy and x >= 0.9:
+            x = 0.5 if r.random() < 0.9 else x      # pops and peeks are rare
         if x < 0.68:
             ops.append(['add', t, r.choice(PRIOS)])
         elif x < 0.8:
@@ -339,8 +342,8 @@ def run(ctx):
     n = {'quick': 1500, 'thorough': 75000}[ctx.tier]
     explore(ctx, Check(), n, 'pq')
     explore(ctx, BListCheck(), n, 'blist')
-    for j in range({'quick': 6, 'thorough': 150}[ctx.tier]):
-        h = churn_history(ctx.rng('churn', j))
+    for j in range({'quick': 7, 'thorough': 150}[ctx.tier]):
+        h = churn_history(ctx.rng('churn', j), heavy=(j % 7 == 6))
         ctx.stats.evaluations += 1
         f = Check().run(h, ctx.stats)
         ctx.stats.count('churn_histories')
